@@ -31,7 +31,22 @@ def showMk : Except Err Constraint → String
 
 def both (m s : String) : String := s!"model={m}\tspec={s}\ttrig="
 
-def run (s : Sexp) : String :=
+/-- `(runf c n pat)` / `(thef n pat)`: the same quantifier over solutions some of which are FALSY Python values
+(`pat` says which: objects with `__bool__`/`__len__`, the ints `0..n-1`); the selected variable is bound by a condition
+that every element satisfies. The model is parametric in the solutions' type — `Quant.run`/`theRun` never inspect a
+value — so its prediction is that of `(run c n)` / `(the n)`. -/
+def stripFalsy : Sexp → Sexp
+  | .list [.atom "runf", c, n, _] => .list [.atom "run", c, n]
+  | .list [.atom "thef", n, _] => .list [.atom "the", n]
+  -- `(histg …)`: the history of `(hist …)` over a domain given as a one-shot generator (cached as it is consumed)
+  | .list (.atom "histg" :: r) => .list (.atom "hist" :: r)
+  -- `(histc …)` / `(histgc …)`: the same with the selected variable bound by a condition every element satisfies
+  | .list (.atom "histc" :: r) => .list (.atom "hist" :: r)
+  | .list (.atom "histgc" :: r) => .list (.atom "hist" :: r)
+  | s => s
+
+def run (s0 : Sexp) : String :=
+  let s := stripFalsy s0
   match s with
   | .list [.atom "run", c, n] =>
     match parseConstraint c, n.asNat? with
